@@ -724,6 +724,7 @@ func (prop) ExtraPhase(tier string, seed uint64, deadline time.Time) (*driver.Ex
 	var mu sync.Mutex
 	var viols []found
 	runs, ops, yields := 0, 0, 0
+	detChecks, nondet := 0, 0
 	combos := map[string]int{}
 	ends := map[string]int{}
 	hashes := map[[32]byte]bool{}
@@ -746,6 +747,18 @@ func (prop) ExtraPhase(tier string, seed uint64, deadline time.Time) (*driver.Ex
 				sc := genMapB(ch.Rng(), tier)
 				r := runMapB(bin, sc)
 				cls, det := judgeMapB(sc, r)
+				if i%64 == 0 {
+					// determinism self-check: the same history and rand seed in a second process
+					if r2 := runMapB(bin, sc); r2.out != r.out {
+						mu.Lock()
+						nondet++
+						mu.Unlock()
+					} else {
+						mu.Lock()
+						detChecks++
+						mu.Unlock()
+					}
+				}
 				mu.Lock()
 				runs++
 				ops += len(sc.Ops)
@@ -763,6 +776,9 @@ func (prop) ExtraPhase(tier string, seed uint64, deadline time.Time) (*driver.Ex
 		}(w)
 	}
 	wg.Wait()
+	if nondet > 0 {
+		return nil, fmt.Errorf("layer B: %d of %d histories run twice printed different outputs: the rand seam does not make the compiled interpreter deterministic", nondet, nondet+detChecks)
+	}
 	sort.Slice(viols, func(a, b int) bool { return viols[a].idx < viols[b].idx })
 	for _, v := range viols {
 		// exact replay first, then minimise
@@ -790,6 +806,7 @@ func (prop) ExtraPhase(tier string, seed uint64, deadline time.Time) (*driver.Ex
 	er.Coverage["distinct_outputs"] = len(hashes)
 	er.Coverage["histories_per_type_combination"] = combos
 	er.Coverage["run_endings"] = ends
+	er.Coverage["histories_run_twice_with_identical_output"] = detChecks
 	er.Coverage["interpreter_sha256"] = sum
 	er.Coverage["components"] = "real: llgo compiler lowering of make/index/assign/delete/clear/len/range for 25 concrete map types, llgo-compiled map runtime, hash and equality functions, type descriptors emitted by the compiler; stub: C rand (hash key material, range start positions) drawn from the history's seed, LLVM 14, bdwgc"
 	return er, nil
